@@ -60,7 +60,8 @@ ActualCase(d, fill) ==
   LET l == Leaf(d, 0, fill)  A == LeafArr(l)  P == Probes(d) IN
   [a |-> "Actual", cls |-> fill, arg |-> [e |-> l, probes |-> P],
    exp |-> [vsize |-> d, vn |-> Total3(d), table |-> A.val, vrange |-> RangeAll(A),
-            clamped |-> [i \in 1..Len(P) |-> ActualGet(A, P[i])]]]
+            clamped |-> [i \in 1..Len(P) |-> ActualGet(A, P[i])],
+            index_of |-> [i \in 1..Len(l.cells) |-> LongIndex(l.cells[i][1], d)]]]    \* ActualArray3D::indexOf, in the order of l.cells
 
 \* getValueRange of every region; empty regions are outside what the statement constrains
 \* (no value to bound): they are emitted with class "empty" and NO expectation
@@ -80,7 +81,8 @@ EmptyRangeCase(d) ==
 ShiftCasesOf(d) == {ViewCase("shift", ShiftE(s, Leaf(d, 0, "set")), ShiftView(FillArr(d, 0), s)) : s \in Shifts(d, 1)}
 \* positive shifts beyond the extent are inside the claimed domain (where + size + shift >= 0)
 ShiftFarOf(d)   == {ViewCase("shift>ext", ShiftE(s, Leaf(d, 0, "ext")), ShiftView(FillArr(d, 0), s)) :
-                       s \in {<<2 * d[1] + 1, d[2] + 1, 0>>, <<0, 3 * d[2] + 2, 5 * d[3] + 1>>, <<7, 8, 9>>}}
+                       s \in {<<2 * d[1] + 1, d[2] + 1, 0>>, <<0, 3 * d[2] + 2, 5 * d[3] + 1>>, <<7, 8, 9>>,
+                             <<2 * d[1], 3 * d[2], d[3]>>, <<d[1], 2 * d[2] - 1, 4 * d[3]>>}}
 \* shifts more negative than the extent: C++ % yields a negative coordinate (outside the claimed domain, recorded only)
 ShiftNegOf(d)   == {ViewCase("shift<-ext", ShiftE(s, Leaf(d, 0, "ext")), ShiftView(FillArr(d, 0), s)) :
                        s \in {<<-d[1] - 1, 0, 0>>, <<0, -2 * d[2] - 1, 0>>, <<-1, -1, -3 * d[3] - 1>>}}
@@ -117,6 +119,63 @@ Comp6(d) == {ViewCase("acc.shift", AccE("f32", ShiftE(s, Leaf(d, 0, "set"))), Ac
 Comp7(d) == {ViewCase("shift.slices", ShiftE(s, SlicesE(SliceLeaves(<<d[1], d[2], 1>>, d[3]))),
                       ShiftView(SliceView([j \in 1..d[3] |-> LeafArr(SliceLeaves(<<d[1], d[2], 1>>, d[3])[j])]), s)) : s \in Shifts(d, 1)}
 
+
+-------------------------------------------------------------------------------
+\* NUMERIC BOUNDARIES: an axis of 255 / 256 / 257 cells; shifts, clip boxes and slice counts around them
+\* (a coordinate, a shift or a slice index kept in 8 bits somewhere would show).  Values injective up to 1021 cells.
+WideValue(k) == (((k - 1) * 37 + 11) % 1021) + 1
+WideArr(d)   == [size |-> d, val |-> [k \in 1..Total3(d) |-> WideValue(k)]]
+WideLeaf(d, fill) == [k |-> "actual", d |-> d, fill |-> fill, mem |-> WideArr(d).val,
+                      cells |-> [i \in 1..Total3(d) |-> <<CoordsOf(Total3(d) - i, d), WideArr(d).val[Total3(d) - i + 1]>>]]
+\* probes for wide views: per axis the marks around 0 and around the size and 254..258
+WideMarks(n) == {-2, -1, 0, 1, 127, 128, 254, 255, 256, 257, 258, n - 1, n, n + 1}
+WideProbes(e) == LET d == SizeE(e) IN
+                 SetToSeq({c \in ({v \in WideMarks(d[1]) : v <= d[1] + 1} \X {v \in WideMarks(d[2]) : v <= d[2] + 1} \X {v \in WideMarks(d[3]) : v <= d[3] + 1}) : DefinedE(e, c)})
+WideCase(cls, e, V) == LET P == WideProbes(e)  R == OutRegions(e) IN
+                       [a |-> "View", cls |-> cls, arg |-> OutArgOf(e, P, R), exp |-> ViewExp(V) @@ OutExpOf(e, P, R)]
+AxisVec(i, v) == [j \in 1..3 |-> IF j = i THEN v ELSE 0]
+WideDims == {<<257, 1, 2>>, <<1, 256, 1>>, <<2, 1, 257>>, <<255, 2, 1>>}
+WideAxis(d) == CHOOSE i \in 1..3 : d[i] >= 255
+WideShiftCases == UNION {{WideCase("shift(wide)", ShiftE(AxisVec(WideAxis(d), v), WideLeaf(d, "ext")), ShiftView(WideArr(d), AxisVec(WideAxis(d), v))) :
+                            v \in {127, 128, 129, 254, 255, 256, 257, 258, 511, 512, 513, 514, -1, -127, -128, -129, -254, -255, -256, -257} \cap ((-d[WideAxis(d)])..600)} : d \in WideDims}
+WideSubCases == UNION {{LET i == WideAxis(d)
+                            lo == AxisVec(i, b[1])
+                            hi == [j \in 1..3 |-> IF j = i THEN b[2] ELSE d[j]] IN
+                        WideCase("sub(wide)", SubE(lo, hi, WideLeaf(d, "set")), SubView(WideArr(d), lo, hi)) :
+                            b \in {bb \in {<<0, 255>>, <<0, 256>>, <<1, 257>>, <<127, 129>>, <<128, 256>>, <<254, 255>>, <<255, 256>>, <<255, 257>>, <<256, 257>>, <<129, 255>>} : bb[2] <= d[WideAxis(d)]}} : d \in WideDims}
+\* MultiSlice with 255 / 256 / 257 slices (each 2 x 1 x 1, distinct values)
+ManyLeaves(n) == [j \in 1..n |-> [k |-> "actual", d |-> <<2, 1, 1>>, fill |-> IF j % 2 = 1 THEN "ext" ELSE "set",
+                                   mem |-> <<WideValue(2 * j - 1), WideValue(2 * j)>>,
+                                   cells |-> << <<<<1, 0, 0>>, WideValue(2 * j)>>, <<<<0, 0, 0>>, WideValue(2 * j - 1)>> >>]]
+WideSliceCases == {WideCase("slices(wide)", SlicesE(ManyLeaves(n)), SliceView([j \in 1..n |-> LeafArr(ManyLeaves(n)[j])])) : n \in {127, 128, 129, 255, 256, 257}}
+
+\* VALUE CLASSES: element values at the ends of each element type (sign, 0x80 bytes, INT_MIN / INT_MAX, floats that are
+\* exact integers), read through Array3DAccessor<T, int>, through a shift, and bounded by getValueRange
+IMAX   == 2147483647
+IMIN   == -2147483647 - 1
+ValuesOf(t) == CASE t = "u8"  -> <<0, 1, 127, 128, 200, 255, 129, 254>>
+                 [] t = "i8"  -> <<-128, -1, 0, 127, -127, 1, 100, -100>>
+                 [] t = "i16" -> <<-32768, -1, 0, 32767, -32767, 255, 256, -256>>
+                 [] t = "u16" -> <<0, 255, 256, 32767, 32768, 65535, 65534, 1>>
+                 [] t = "i32" -> <<IMIN, -1, 0, IMAX, -IMAX, 65536, -65536, 1>>
+                 [] t = "i64" -> <<IMIN, -2, 0, IMAX, -IMAX, 65537, -65537, 2>>
+                 [] t = "f32" -> <<-16777216, -3, 0, 16777216, -1, 1, 255, -65536>>
+                 [] t = "f64" -> <<IMIN, IMAX, 0, -1, 1, 16777217, -16777217, 3>>
+ValueTypes == {"u8", "i8", "i16", "u16", "i32", "i64", "f32", "f64"}
+ValArr(t, d)  == [size |-> d, val |-> ValuesOf(t)]
+ValLeaf(t, d, fill) == [k |-> "actual", d |-> d, fill |-> fill, mem |-> ValuesOf(t),
+                        cells |-> [i \in 1..8 |-> <<CoordsOf(8 - i, d), ValuesOf(t)[8 - i + 1]>>]]
+ValDims == {<<2, 2, 2>>, <<8, 1, 1>>, <<1, 4, 2>>}
+ValueCases == {ViewCase("acc(values)", AccE(t, ValLeaf(t, d, f)), AccView(ValArr(t, d))) : t \in ValueTypes, d \in ValDims, f \in Fills}
+              \cup {ViewCase("acc.shift(values)", AccE(t, ShiftE(<<1, 0, 1>>, ValLeaf("i32", d, "ext") )), AccView(ShiftView(ValArr("i32", d), <<1, 0, 1>>))) : t \in {"i32", "i64", "f64"}, d \in ValDims}
+              \cup {ViewCase("sub(values)", SubE(<<0, 0, 0>>, d, ValLeaf("i32", d, f)), ValArr("i32", d)) : d \in ValDims, f \in Fills}
+ValueRangeCases == {LET l == ValLeaf("i32", d, "set")  R == NonEmpty(d) IN
+                    [a |-> "Ranges", cls |-> "non-empty(values)", arg |-> [e |-> l, regions |-> R],
+                     exp |-> [ranges |-> [i \in 1..Len(R) |-> RangeOf(ValArr("i32", d), R[i][1], R[i][2])]]] : d \in ValDims}
+
+\* (Arrays with an extent of 0 are not emitted: whether an ActualArray3D without cells can be constructed is nothing
+\*  the statement talks about; empty extents are covered for the index maps, empty boxes for for_each.)
+
 \* outside the statement, recorded only: Array3DRepeater
 RepeatE(rs, e) == [k |-> "repeat", size |-> rs, of |-> e]
 RepeatSizes(d) == {d, <<2 * d[1], d[2], d[3]>>, <<2 * d[1] + 1, 3 * d[2], d[3] + 1>>}
@@ -139,6 +198,12 @@ ASSUME Out("shiftneg", UNION {ShiftNegOf(d) : d \in E3})
 ASSUME Out("sub", UNION {SubCasesOf(d) : d \in E3})
 ASSUME Out("acc", UNION {AccCasesOf(d) : d \in E3})
 ASSUME Out("slices", UNION {SliceCasesOf(d) : d \in E3})
+ASSUME Out("wide-shift", WideShiftCases)
+ASSUME Out("wide-sub", WideSubCases)
+ASSUME Out("wide-slices", WideSliceCases)
+ASSUME Out("values", ValueCases)
+ASSUME Out("values-ranges", ValueRangeCases)
+ASSUME \A t \in ValueTypes : Len(ValuesOf(t)) = 8
 ASSUME Out("repeat", UNION {RepeatCasesOf(d) : d \in E3})
 ASSUME Out("repeat-clamp", UNION {RepeatClampOf(d) : d \in E3})
 ASSUME Out("comp1", UNION {Comp1(d) : d \in CompExts})
